@@ -86,6 +86,7 @@ impl<T> Block<T> {
     }
 
     // Gets the length of the next block, if it exists.
+    #[cfg(test)]
     pub(crate) fn next_len(&self, guard: &Guard) -> usize {
         let tail = self.next.load(Ordering::Acquire, guard);
         if tail.is_null() {
@@ -94,6 +95,21 @@ impl<T> Block<T> {
 
         let tail_block = unsafe { tail.deref() };
         tail_block.len()
+    }
+
+    // Whether or not any write to this block has completed.
+    fn has_completed_writes(&self) -> bool {
+        self.read.load(Ordering::Acquire) != 0
+    }
+
+    // Whether or not any write to the next block, if it exists, has completed.
+    fn next_has_completed_writes(&self, guard: &Guard) -> bool {
+        let next = self.next.load(Ordering::Acquire, guard);
+        if next.is_null() {
+            return false;
+        }
+
+        unsafe { next.deref() }.has_completed_writes()
     }
 
     /// Gets the current length of this block.
@@ -244,9 +260,11 @@ impl<T> AtomicBucket<T> {
         }
 
         // We have to check the next block of our tail in case the current tail is simply a fresh
-        // block that has not been written to yet.
+        // block that has not been written to yet.  A block holds a value as soon as any write to
+        // it has completed, even if writes to lower slots are still in flight, so we look at the
+        // completed writes directly rather than at the length of the initial run of them.
         let tail_block = unsafe { tail.deref() };
-        tail_block.len() == 0 && tail_block.next_len(guard) == 0
+        !tail_block.has_completed_writes() && !tail_block.next_has_completed_writes(guard)
     }
 
     /// Pushes an element into the bucket.
